@@ -27,6 +27,7 @@
 #undef free
 #undef realloc
 #include "vf_stubs.h"
+#include "vf_frame.h"
 
 int main(VF_MAIN_ARGS)
 {
@@ -39,6 +40,7 @@ int main(VF_MAIN_ARGS)
     req = (ENTRY == 0 || ENTRY == 2) ? (IN.req & 1) : 0;
     content = (unsigned char *)vf_exact(IN.b, M);
     vf_fail_at = IN.fail_at;
+    VF_FRAME_BEGIN();
 
 #if ENTRY == 0
     r = cJSON_ParseWithLengthOpts((const char *)content, M, WITH_END ? &end : 0, req);
@@ -50,6 +52,7 @@ int main(VF_MAIN_ARGS)
     r = cJSON_Parse((const char *)content);
 #endif
     err = cJSON_GetErrorPtr();
+    VF_FRAME_END(1);
 
     VF_AP(1, memcmp(content, IN.b, M) == 0, "C01 input not written");
     /* ---- specification: BOM, whitespace, one value, optional termination check */
